@@ -1060,6 +1060,49 @@ namespace
             R.count("c18.nodes_checked");
         }
         R.maxc("c18.max_degree", static_cast<long>(maxdeg));
+        // query histories: the neighbours of a node do not depend on what was looked up before - the same node again, with
+        // look-ups on another live mesh object in between, in any order
+        {
+            std::string c2;
+            GridSpec dg = gen_mesh_c18(rng, c2, max_side);
+            std::string w2;
+            std::unique_ptr<grid_t> decoy = ref_geom(dg).valid ? try_make(dg, w2) : nullptr;
+            const std::size_t dn = dg.pts.size();
+            auto sorted_idx = [](const auto& arr)
+            {
+                std::vector<std::size_t> v(arr.begin(), arr.end());
+                std::sort(v.begin(), v.end());
+                return v;
+            };
+            const std::size_t visits = std::min<std::size_t>(n, 80);
+            for (std::size_t q = 0; q < visits; ++q)
+            {
+                const std::size_t i = rng.below(n);
+                std::vector<std::size_t> want;
+                for (auto& e : ref.adj[i])
+                    want.push_back(e.idx);
+                std::sort(want.begin(), want.end());
+                auto a = sorted_idx(grid->neighbors_indices(i));
+                if (decoy && rng.chance(0.7))
+                    (void) decoy->neighbors_indices(rng.below(dn));
+                auto b = sorted_idx(grid->neighbors_indices(i));
+                if (decoy && rng.chance(0.5))
+                    (void) decoy->neighbors(rng.below(dn), nbuf);
+                std::vector<std::size_t> c;
+                for (auto& x : grid->neighbors(i, nbuf))
+                    c.push_back(x.idx);
+                std::sort(c.begin(), c.end());
+                if (a != want || b != want || c != want)
+                {
+                    fail("neighbors_depend_on_query_history", "node " + std::to_string(i) + ": first look-up " + jarr_int(a, 30) + ", again after look-ups on another mesh "
+                                                                  + jarr_int(b, 30) + ", struct accessor " + jarr_int(c, 30) + ", expected " + jarr_int(want, 30));
+                    break;
+                }
+            }
+            R.count("c18.query_history_visits", static_cast<long>(visits));
+            if (decoy)
+                R.count("c18.query_histories_with_second_mesh");
+        }
         // boundary / default status
         if (mode == 0 || (mode == 1 && g.mesh_status_map.empty()))
         {
